@@ -6,6 +6,7 @@ EXTENDS Cli, Json
 MCSpec == Spec
 \* C17 at design level (the repaired order of stages); with deviations listed the model is only used to predict
 DesignOK == (Dev = {}) => (SuccessWritesNew /\ FailureKeepsOld /\ SucceedsIffNoFailure)
+DesignOKD == SuccessWritesNew /\ FailureKeepsOld /\ SucceedsIffNoFailure
 OutcomeAgrees == exit # "running" => (Outcome(scn, Dev).exit = exit /\ Outcome(scn, Dev).outf = outf)
 Emit == (pc = Order /\ exit = "running") => PrintT(<<"CASE", ToJson([prop |-> "C17", drv |-> "cli", scn |-> scn])>>)
 ASSUME PrintT(<<"VOCAB", ToJson([names |-> [x |-> [xml |-> "x"]]])>>)
